@@ -204,6 +204,15 @@ func (e *Encoder) havocMod(env *Env, m Expr, st *State) (err error) {
 			elem := v.T.Underlying().(*types.Slice).Elem()
 			return e.havocElems(st, v, elem)
 		}
+		if id, ok := call.Fun.(*EIdent); ok && id.Name == "object" {
+			// object(p): every cell of the object p points into (p a pointer or an interface holding one)
+			root, err := e.objectRoot(env, call.Args[0])
+			if err != nil {
+				return err
+			}
+			e.havocObject(st, root)
+			return nil
+		}
 	}
 	loc, t, ok := env.addr(m)
 	if !ok {
@@ -211,6 +220,44 @@ func (e *Encoder) havocMod(env *Env, m Expr, st *State) (err error) {
 	}
 	e.havocLoc(st, loc, t)
 	return nil
+}
+
+func (e *Encoder) objectRoot(env *Env, x Expr) (string, error) {
+	v := env.elab(x)
+	switch v.T.Underlying().(type) {
+	case *types.Pointer:
+		return fmt.Sprintf("(rootof %s)", v.S), nil
+	case *types.Interface:
+		e.c.declareFun("unbox_Loc", []string{"Iface"}, "Loc")
+		return fmt.Sprintf("(rootof (unbox_Loc %s))", v.S), nil
+	case *types.Slice:
+		return fmt.Sprintf("(rootof (sbase %s))", v.S), nil
+	}
+	return "", fmt.Errorf("object() needs a pointer, slice or interface")
+}
+
+// havocObject replaces every known memory map by a fresh one that agrees with it outside the object.
+func (e *Encoder) havocObject(st *State, root string) {
+	c := e.c
+	var keys []string
+	for k := range c.memSorts {
+		keys = append(keys, k)
+	}
+	sortStrings(keys)
+	for _, k := range keys {
+		srt := c.memSorts[k]
+		if strings.HasPrefix(k, "mapdom_") || strings.HasPrefix(k, "mapval_") {
+			continue // maps are separate objects
+		}
+		cur := st.get(c, k, srt)
+		n := c.fresh("M_" + k)
+		c.declare(n, srt)
+		c.assume(fmt.Sprintf("(forall ((p!o Loc)) (! (=> (not (= (rootof p!o) %s)) (= (select %s p!o) (select %s p!o))) :pattern ((select %s p!o))))", root, n, cur, n))
+		st.mem[k] = n
+	}
+	// memory maps not used so far are simply unknown from here on
+	st.epoch = c.fresh("e")
+	e.bumpCtr(st)
 }
 
 func (e *Encoder) havocLoc(st *State, loc string, t types.Type) {
@@ -286,9 +333,12 @@ func (e *Encoder) builtin(bi *ssa.Builtin, cm *ssa.CallCommon, args []Val, resT 
 			return Val{T: intT, S: fmt.Sprintf("(str_len %s)", x.S)}
 		case *types.Map:
 			env := e.envFor(st)
-			v := Val{T: intT, S: fmt.Sprintf("(%s %s)", env.mapLenFn(u), env.mapState(x, u))}
-			c.assume(c.cmp(">=", intT, v.S, c.idxLit(0)))
-			return v
+			dom := env.mapState(x, u)
+			card := fmt.Sprintf("(%s %s)", env.mapLenFn(u), dom)
+			c.assume(c.cmp(">=", intT, card, c.idxLit(0)))
+			// an empty map has no keys (cardinality is otherwise uninterpreted)
+			c.assume(fmt.Sprintf("(=> (= %s %s) (= %s ((as const (Array %s Bool)) false)))", card, c.idxLit(0), dom, c.sortOf(u.Key())))
+			return Val{T: intT, S: fmt.Sprintf("(ite (= %s map_nil) %s %s)", x.S, c.idxLit(0), card)}
 		case *types.Pointer:
 			if at, ok := u.Elem().Underlying().(*types.Array); ok {
 				return Val{T: intT, S: c.idxLit(at.Len())}
@@ -485,7 +535,7 @@ func (e *Encoder) ifaceCall(cm *ssa.CallCommon, recv Val, args []Val, resT types
 func (e *Encoder) applyIfaceContract(fc *FuncContract, cm *ssa.CallCommon, recv Val, args []Val, resT types.Type, st *State, pc string) Val {
 	c := e.c
 	pre := st.clone()
-	env := &Env{c: c, pkg: e.pkg, vars: map[string]Val{}, mem: pre.memFn(c)}
+	env := &Env{c: c, pkg: e.pkg, vars: map[string]Val{}, mem: pre.memFn(c), freshBase: pre.ctr, wt: e.assumeCellWT}
 	if fc.Decl.Recv != nil && len(fc.Decl.Recv.List[0].Names) > 0 {
 		env.vars[fc.Decl.Recv.List[0].Names[0].Name] = recv
 	}
@@ -504,7 +554,17 @@ func (e *Encoder) applyIfaceContract(fc *FuncContract, cm *ssa.CallCommon, recv 
 		}
 		e.addObl("pre@"+sname, r.Text, pc, s)
 	}
-	if !(fc.Pure || (fc.HasMod && len(fc.Modifies) == 0)) {
+	switch {
+	case fc.Pure || (fc.HasMod && len(fc.Modifies) == 0):
+	case fc.HasMod:
+		for i, m := range fc.Modifies {
+			if err := e.havocMod(env, m, st); err != nil {
+				e.note("interface call %s: modifies %q not expressible (%v): heap havoc", cm.Method.Name(), fc.ModText[i], err)
+				e.havocAll(st, "interface call "+cm.Method.Name())
+				break
+			}
+		}
+	default:
 		e.havocAll(st, "interface call "+cm.Method.Name())
 	}
 	result := e.freshVal("r_"+sanitize(cm.Method.Name()), resT)
